@@ -297,6 +297,7 @@ class DirectoryResolver(Resolver):
         follow_symlink_dirs=False,
         normalize_line_endings=False,
         lstrip_paths=None,
+        base_path=None,
     ):
         if not exclude_patterns:
             exclude_patterns = []
@@ -308,6 +309,7 @@ class DirectoryResolver(Resolver):
         self._follow_symlink_dirs = follow_symlink_dirs
         self._normalize_line_endings = normalize_line_endings
         self._lstrip_paths = lstrip_paths
+        self._base_path = base_path
 
     def _strip_scheme_prefix(self, path):
         """Helper to strip file resolver scheme prefix from path."""
@@ -363,26 +365,36 @@ class DirectoryResolver(Resolver):
     def hash_artifacts(self, uris):
         hashes = {}
 
-        for path in uris:
-            path = self._strip_scheme_prefix(path)
+        # Directories are looked up relative to the base path, like files
+        if self._base_path:
+            original_cwd = os.getcwd()
+            os.chdir(self._base_path)
 
-            if not os.path.isdir(path):
-                raise ValueError(f"path '{path}' is not a directory")
+        try:
+            for path in uris:
+                path = self._strip_scheme_prefix(path)
 
-            file_resolver = FileResolver(
-                base_path=path,
-                exclude_patterns=self._exclude_patterns,
-                follow_symlink_dirs=self._follow_symlink_dirs,
-                normalize_line_endings=self._normalize_line_endings,
-            )
+                if not os.path.isdir(path):
+                    raise ValueError(f"path '{path}' is not a directory")
 
-            file_hashes = file_resolver.hash_artifacts(["."])
-            if not file_hashes:
-                logger.info(
-                    "path: %s has no files, recording empty dir...", path
+                file_resolver = FileResolver(
+                    base_path=path,
+                    exclude_patterns=self._exclude_patterns,
+                    follow_symlink_dirs=self._follow_symlink_dirs,
+                    normalize_line_endings=self._normalize_line_endings,
                 )
 
-            name = self._mangle(path, hashes)
-            hashes[name] = self._hash(file_hashes)
+                file_hashes = file_resolver.hash_artifacts(["."])
+                if not file_hashes:
+                    logger.info(
+                        "path: %s has no files, recording empty dir...", path
+                    )
+
+                name = self._mangle(path, hashes)
+                hashes[name] = self._hash(file_hashes)
+
+        finally:
+            if self._base_path:
+                os.chdir(original_cwd)
 
         return hashes
